@@ -1,5 +1,6 @@
 CONSTANTS
   MaxLen = 4
+  Faults = FALSE
   Emit = FALSE
 SPECIFICATION Spec
 INVARIANT OnlyCacheableStored
